@@ -852,8 +852,8 @@ def rule_r16(prog, res):
     unwraps = [a for a in walk_no_defs(f.node) if isinstance(a, ast.Assign)
                and isinstance(a.value, ast.Call) and call_name(a.value) ==
                'get' and len(a.targets) == 1 and isinstance(
-                   a.targets[0], ast.Name) and unparse(a.value.func.value) ==
-               a.targets[0].id and a.value.args and
+                   a.targets[0], ast.Name) and isinstance(
+                   a.value.func.value, ast.Name) and a.value.args and
                unparse(a.value.args[0]) == 'class_name']
     res.floor('R16', 'message unwrapping in HierDictDocument.deserialize',
               len(unwraps), 1)
@@ -883,6 +883,30 @@ def rule_r16(prog, res):
                             'can invoke the method' % (what, unparse(test),
                                                        effect))
 
+    # sibling agreement on the form of keys: the member reader accepts bytes
+    # keys when the protocol has a key encoding, so the entry point must find
+    # the message under a bytes key as well
+    g_ = h.methods.get('_doc_to_object')
+    member_side = g_ is not None and any(
+        isinstance(c, ast.Call) and call_name(c) == 'decode' and
+        'key_encoding' in unparse(c) for c in ast.walk(g_.node))
+    entry_side = any(
+        isinstance(c, ast.Call) and call_name(c) == 'get' and c.args and
+        isinstance(c.args[0], ast.Call) and call_name(c.args[0]) == 'encode'
+        and 'key_encoding' in unparse(c.args[0]) and
+        'class_name' in unparse(c.args[0]) for c in ast.walk(f.node))
+    ok = entry_side or not member_side
+    res.ob('R16', f.where, 'bytes keys: member reader decodes them: %s, entry '
+           'point looks the message up under the encoded name: %s' % (
+               member_side, entry_side), 'ok' if ok else 'VIOLATED')
+    if not ok:
+        res.finding('R16', 'HierDictDocument.deserialize|bytes-keyed-message',
+                    f.where, '_doc_to_object decodes bytes member keys with '
+                    'key_encoding but deserialize looks the message up under '
+                    'the text name only: a MessagePackDocument request whose '
+                    'keys were packed as bytes ({b"locate": ...}) is read as '
+                    '"no arguments" and the function is called with None')
+
 
 def run(prog, res, tier):
     res.run_rule(rule_r1, prog, res)
@@ -909,6 +933,12 @@ _J = 'spyne/protocol/json.py'
 _Y = 'spyne/protocol/yaml.py'
 
 MUTANTS = [
+    Mutant('bytes-key-fallback-removed', 'R16', 'fire', _H,
+           in_func('HierDictDocument.deserialize',
+                   r"                if message_doc is None and self\.key_"
+                   r"encoding is not None:\n(.*?)                doc = "
+                   r"message_doc\n", "                doc = message_doc\n",
+                   regex=True), 'bytes-keyed-message'),
     Mutant('bare-leaf-unwrapped-only-without-wrappers', 'R16', 'fire', _H,
            in_func('HierDictDocument.deserialize',
                    "            if self.ignore_wrappers or issubclass("
